@@ -15,6 +15,7 @@ import (
 func init() {
 	vEntries["VH_ClientCmd"] = VH_ClientCmd
 	vEntries["VH_ClientRetry"] = VH_ClientRetry
+	vEntries["VH_ClientSendFail"] = VH_ClientSendFail
 	vEntries["VH_ClientSetters"] = VH_ClientSetters
 	vEntries["VH_ClientHistory"] = VH_ClientHistory
 	vEntries["VH_StatusWire"] = VH_StatusWire
@@ -68,10 +69,14 @@ type vSim struct {
 	plain    bool // no adversarial replies, no unsolicited records, no transient failures
 	allowBad bool // allow foreign / wrong-type / short replies
 	recvs    int
+	// sends: the failAt-th Send (0-based; -1 none) fails before anything reaches the kernel
+	sendCalls   int
+	failSendAt  int
+	failedSends int
 }
 
 func newSim() *vSim {
-	s := &vSim{buf: make([]byte, 16+64), maxUnsol: vParam("unsol", 1), maxTrans: vParam("trans", 1), allowBad: vParam("bad", 1) != 0}
+	s := &vSim{buf: make([]byte, 16+64), maxUnsol: vParam("unsol", 1), maxTrans: vParam("trans", 1), allowBad: vParam("bad", 1) != 0, failSendAt: -1}
 	s.nextSeq = vU32("seq0")
 	vAssume(s.nextSeq != 0)
 	return s
@@ -86,6 +91,11 @@ func vGet16(b []byte) uint16 { return uint16(b[0]) | uint16(b[1])<<8 }
 
 // Send numbers the request, records it and plans the kernel's answer.
 func (s *vSim) Send(msg syscall.NetlinkMessage) (uint32, error) {
+	s.sendCalls++
+	if s.sendCalls-1 == s.failSendAt {
+		s.failedSends++
+		return 0, syscall.ENOBUFS
+	}
 	seq := s.nextSeq
 	s.nextSeq++
 	vAssume(s.nextSeq != 0) // request number 0 is outside the domain (DESIGN.md, C08)
@@ -353,6 +363,59 @@ func VH_ClientCmd() {
 	}
 }
 
+// VH_ClientSendFail: one Send of the command fails (nothing reaches the kernel): the command
+// reports an error; it neither succeeds nor hands out data.
+func VH_ClientSendFail() {
+	s := newSim()
+	s.plain = true
+	c := &AuditClient{Netlink: s}
+	method := vChoose("method", vmCount)
+	s.failSendAt = vChoose("failat", 3) // DeleteRules sends 1 + one per rule
+	var err error
+	switch method {
+	case vmGetStatus:
+		var st *AuditStatus
+		st, err = c.GetStatus()
+		vAssert(s.failedSends == 0 || st == nil, "C08/status-returned-although-send-failed")
+	case vmGetRules:
+		var rules [][]byte
+		rules, err = c.GetRules()
+		vAssert(s.failedSends == 0 || len(rules) == 0, "C08/rules-returned-although-send-failed")
+	case vmAddRule:
+		err = c.AddRule(vBytes("rulebytes", 4))
+	case vmDeleteRule:
+		err = c.DeleteRule(vBytes("rulebytes", 4))
+	case vmDeleteRules:
+		_, err = c.DeleteRules()
+	case vmSetEnabled:
+		err = c.SetEnabled(vBool("enabled"), WaitForReply)
+	case vmSetImmutable:
+		err = c.SetImmutable(WaitForReply)
+	case vmSetFailure:
+		err = c.SetFailure(FailureMode(vU32("fm")), WaitForReply)
+	case vmSetRateLimit:
+		err = c.SetRateLimit(vU32("rate"), WaitForReply)
+	case vmSetBacklogLimit:
+		err = c.SetBacklogLimit(vU32("limit"), WaitForReply)
+	case vmSetBacklogWaitTime:
+		err = c.SetBacklogWaitTime(vI32("wait"), WaitForReply)
+	case vmSetPID:
+		err = c.SetPID(WaitForReply)
+	}
+	if s.failedSends > 0 {
+		vReach("C08/send-failed")
+		vAssert(err != nil, "C08/nil-although-send-failed")
+	} else {
+		allOK := true
+		for _, rq := range s.reqs {
+			if !(rq.acked && rq.errno == 0) {
+				allOK = false
+			}
+		}
+		vAssert((err == nil) == allOK, "C08/verdict-differs-when-no-send-failed")
+	}
+}
+
 // VH_ClientRetry: exactly j consecutive transient failures before the reply.
 func VH_ClientRetry() {
 	s := newSim()
@@ -565,6 +628,15 @@ func VH_ClientHistory() {
 		switch op {
 		case 0: // a setter without waiting
 			if closes > 0 {
+				continue
+			}
+			if vParam("sendfail", 0) != 0 && vChoose("sendfails", 2) == 1 {
+				// this Send fails: an error now, and no ACK is ever awaited for it
+				s.failSendAt = s.sendCalls
+				err := c.SetEnabled(vBool("enabled"), NoWait)
+				s.failSendAt = -1
+				vAssert(err != nil, "C17/nowait-send-failure-not-reported")
+				vAssert(len(s.reqs) == before, "C17/harness-request-log")
 				continue
 			}
 			err := c.SetEnabled(vBool("enabled"), NoWait)
